@@ -70,8 +70,8 @@ def observe(api: dict, mid: str, text_valid: bool) -> dict:
     entries = []
     dups = []
 
-    def own(x):
-        return x == mid or x.startswith(pre)
+    def own(x):      # the filler module of a package-file scenario is not part of it
+        return (x == mid or x.startswith(pre)) and not (x + "/").startswith(pre + "fillmod/")
     seen = set()
     for key, kind in (("classes", "class"), ("functions", "func"), ("enums", "enum"), ("attributes", "attr"), ("enum_instances", "inst"),
                       ("parameters", "param"), ("results", "result")):
@@ -105,7 +105,11 @@ def main(v: Verdict) -> None:
     files = {"__init__.py": "", "basemod.py": BASE}
     for k, m in enumerate(mods):
         m["id"] = k + 1
-        files[f"wm{k + 1:04d}.py"] = module_src(m)
+        if "pkgfile" in m["flags"]:      # the declarations live in the package file itself
+            files[f"wm{k + 1:04d}/__init__.py"] = module_src(m)
+            files[f"wm{k + 1:04d}/fillmod.py"] = "def fill() -> int:\n    ...\n"
+        else:
+            files[f"wm{k + 1:04d}.py"] = module_src(m)
     pkg = write_pkg(files, PKG)
     r = run_many([{"src": pkg, "opts": Opts(), "timeout": 900, "trace_walk": True}])[0]
     if r.exit != "ok":
